@@ -345,7 +345,7 @@ Section Infer.
                   end
         end)
     | ECall _ _ _ _ _ => IUnk
-    | EMeth _ _ _ => IUnk
+    | EMeth _ _ _ _ => IUnk
     | ELambda _ _ => IUnk
     | EListComp body cls =>
         ibind (check_clauses infer cls) (fun _ => ibind (infer body) (fun t => IOk (TList t)))
@@ -405,7 +405,7 @@ Fixpoint comp_binds (e : expr) : list (string * bexpr) :=
   | ECall f args kw st ds =>
       comp_binds f ++ flat_map comp_binds args ++ flat_map (fun kv => match kv with (_, v) => comp_binds v end) kw
       ++ opt_binds comp_binds st ++ opt_binds comp_binds ds
-  | EMeth r _ args => comp_binds r ++ flat_map comp_binds args
+  | EMeth r _ args kw => comp_binds r ++ flat_map comp_binds args ++ flat_map (fun kv => match kv with (_, v) => comp_binds v end) kw
   | ELambda _ b => comp_binds b
   | EListComp b cls => clause_binds comp_binds cls ++ comp_binds b
   | EDictComp k v cls => clause_binds comp_binds cls ++ comp_binds k ++ comp_binds v
